@@ -484,6 +484,15 @@ func (r *histRunner) exec(op string) (outcome string) {
 				nw = len(strings.Split(s, sep))
 			}
 			outcome = fmt.Sprintf("words=%d|%s", nw, errString(err))
+		case "CH":
+			// the valid sentence with its FIRST word replaced by another list word: same tail, other
+			// head (a memo keyed by part of the decoded value, e.g. its low 64 bits, shows here)
+			w := append([]string(nil), words...)
+			w[0] = r.m.List[ml][(r.m.Dict[ml][w[0]]+1000)%2048]
+			outcome = check(strings.Join(w, " "))
+		case "CT":
+			// the last 12 words of the valid 24-word sentence on their own: same tail, other count
+			outcome = check(strings.Join(words[12:], " "))
 		case "CN":
 			// the valid sentence in a non-canonical but NFKD-equivalent spelling: NFC, ASCII letters
 			// full-width, U+3000 between the words (a normaliser chosen from earlier calls shows here)
